@@ -31,6 +31,8 @@ def lifecycle_trace(ctx, events, name, chunk=8000):
         p = ctx.wpath("%s-life-%d.ndjson" % (name, ci))
         write_ndjson(p, [e for _, e in part] + [{"a": "End", "id": 0}])
         r = tlc("TxLifecycle", "TraceTxLifecycle", workers=1, env={"TRACE": p}, coverage=False, stack="1g", heap="3g")
+        if "TRACE" in r.out and "No such file" in r.out or not os.path.exists(p):
+            raise ToolError("work file %s disappeared while TLC was running (work/ cleaned by another process?)" % p)
         os.unlink(p)
         bad = [part[int(x) - 1][0] for x in re.findall(r'<<"BAD", (\d+)>>', r.out)]
         m = re.search(r'<<"TRACE-REJECTED", (\d+)', r.out)
@@ -43,7 +45,7 @@ def lifecycle_trace(ctx, events, name, chunk=8000):
         elif not r.ok:
             raise ToolError("TraceTxLifecycle failed to run: %s" % r.out[-1500:])
         return bad, rejected
-    with ThreadPoolExecutor(max_workers=6) as ex:
+    with ThreadPoolExecutor(max_workers=8) as ex:
         res = list(ex.map(run, list(enumerate(chunks))))
     bad = sorted(i for b, _ in res for i in b)
     rejected = [r for _, r in res if r is not None]
@@ -111,7 +113,7 @@ def C11(ctx):
     sp = ctx.wpath("crash-scen.ndjson")
     quick_scen = "transfer_xrd,radiswap,metadata,fungible_resource,non_fungible_resource,account_authorized_depositors," \
                  "account_locker,access-controller-v2,royalties"
-    vh(BIN, ["crash", "scenarios", "seed=%d" % ctx.seed, "mutants=%d" % (3 if q else 12), "base=%d" % 20_000_000,
+    vh(BIN, ["crash", "scenarios", "seed=%d" % ctx.seed, "mutants=%d" % (3 if q else 6), "base=%d" % 20_000_000,
              "max=%d" % (400 if q else 100000), "scen=%s" % (quick_scen if q else "")], stdout_path=sp)
     sevs = [e for e in read_ndjson(sp) if e["a"] != "Skip"]
     os.unlink(sp)
@@ -125,7 +127,7 @@ def C11(ctx):
     ctx.sample({"trace_event": receipts[3]})
     ctx.sample({"trace_event": next(e for e in revs if e["a"] == "Receipt")})
     # T: the recorded stream against TraceTxLifecycle
-    bad, rejected = lifecycle_trace(ctx, allev, "crash")
+    bad, rejected = lifecycle_trace(ctx, allev, "crash", chunk=8000 if q else 20000)
     pmap = {p["id"]: p for p in purposes}
     for i in bad:
         e = allev[i]
@@ -194,6 +196,8 @@ def determinism_trace(ctx, events, name, per_chunk=60):
         p = ctx.wpath("%s-det-%d.ndjson" % (name, ci))
         write_ndjson(p, [e for _, e in part])
         r = tlc("Determinism", "TraceDeterminism", workers=1, env={"TRACE": p}, coverage=False, stack="1g", heap="3g")
+        if not os.path.exists(p):
+            raise ToolError("work file %s disappeared while TLC was running (work/ cleaned by another process?)" % p)
         os.unlink(p)
         if re.search(r'<<"TRACE-REJECTED"', r.out) or not r.ok:
             raise ToolError("TraceDeterminism did not consume the recording: %s" % r.out[-1500:])
@@ -223,7 +227,12 @@ def C01(ctx):
         full_plan = rf.printed("B")
         if len(full_plan) != 128:
             raise ToolError("full run plan has %d runs" % len(full_plan))
-        jobs = [("lattice", full_plan, FAST_SCENARIOS, 4), ("scenarios", quick_plan, "all", 3)]
+        rs = tlc("Determinism", "MCDeterminism", workers=4, coverage=False, consts={"PlanMode": '"small"', "DebugLen": "40"})
+        tlc_must_pass(rs, "MCDeterminism(small plan)")
+        small_plan = rs.printed("B")
+        if len(small_plan) != 6:
+            raise ToolError("small run plan has %d runs" % len(small_plan))
+        jobs = [("lattice", full_plan, FAST_SCENARIOS, 4), ("scenarios", small_plan, "all", 3)]
     ctx.sample({"run": quick_plan[0]})
     ctx.sample({"run": quick_plan[-1]})
     total_obs, total_tx, runs_done = 0, 0, 0
@@ -281,7 +290,8 @@ def C01(ctx):
                     "transactions creating many vaults / non-fungible ids / metadata entries at once + failing, unauthorised and rejected "
                     "transactions) from a fresh ledger under every run (4 threads = 4 concurrent copies sharing the code cache; fresh = child "
                     "process) and records per transaction the hashes of the SBOR-encoded outcome, state updates, events, fee summary, "
-                    "fee source/destination, nullifications; TraceDeterminism requires every observation to equal the first one. "
+                    "fee source/destination, nullifications (thorough: full lattice on the fast scenarios, a six-run plan on all scenarios); "
+                    "TraceDeterminism requires every observation to equal the first one. "
                     "distinct = observations (run x thread x transaction)"}
 
 
